@@ -44,6 +44,8 @@ def strategy_impl(draw, tier):
     return {
         "Kx": Kx, "Ky": Ky, "N": N, "px": px, "py": py, "prefs": [list(p) for p in prefs],
         "extra": extra, "order": draw(gen.permutations_of(labels)), "U": U, "V": V,
+        # the partner component may be stored with its dimensions in another order than the component itself
+        "order_v": draw(st.one_of(st.none(), gen.permutations_of(labels))),
         "op": draw(st.sampled_from(["diff", "interp"])),
         "boundary": draw(st.sampled_from(["fill", "extend", "periodic"])),
         "fill": draw(gen.fill_values),
@@ -101,16 +103,16 @@ def check(case, ctx):
     grid = must_return("Grid construction", Grid, ds, coords=gc, face_connections=fc, autoparse_metadata=False, periodic=False, **kw)
     ckw = {"boundary": case["boundary"], "fill_value": case["fill"]} if case["bsrc"] == "call" else {}
 
-    def dims_for(ydim, xdim):
+    def dims_for(ydim, xdim, which="order"):
         base = ["face"] + [e[0] for e in case["extra"]] + [ydim, xdim]
-        order = [{"Y": ydim, "X": xdim}.get(l, l) for l in case["order"]]
+        order = [{"Y": ydim, "X": xdim}.get(l, l) for l in (case.get(which) or case["order"])]
         if drop_face:
             base = base[1:]
             order = [d for d in order if d != "face"]
         return base, order
 
     ub, uo = dims_for("yc", "xl")
-    vb, vo = dims_for("yl", "xc")
+    vb, vo = dims_for("yl", "xc", "order_v")
     uda = xr.DataArray(u[0] if drop_face else u, dims=ub).transpose(*uo)
     vda = xr.DataArray(v[0] if drop_face else v, dims=vb).transpose(*vo)
     cb, co = dims_for("yc", "xc")
@@ -155,6 +157,7 @@ def check(case, ctx):
             exp = exp[0]
         got = must_return(f"Grid.{case['op']} (vector component {comp[0]})", fop, {comp[0]: comp[1]}, comp[0],
                           other_component={other[0]: other[1]}, **ckw)
+        co = dims_for("yc", "xc", "order" if comp[0] == "X" else "order_v")[1]   # the result keeps the order of *its* input
         if list(got.dims) != co:
             raise Violation("result dims differ", component=comp[0], got=list(got.dims), expected=co)
         gv = np.asarray(got.transpose(*cb).values)
